@@ -33,6 +33,11 @@ CallKeys == Keys \cup {"i1", "g2"}
 
 Heads(n) == [1..n -> Keys]
 Lens == IF Tier = "quick" THEN {2, 3} ELSE {2, 3, 4}
+(* quick: predicates of four clauses over a reduced palette (one atom, one integer, two structures of one functor, a list and a *)
+(* string): the shapes where a key class has one key used by several clauses next to several clauses of another class            *)
+Keys4 == {"a", "fx", "fv", "lst", "str", "i2"}
+LensGen == IF Tier = "quick" THEN {2, 3, 4} ELSE Lens
+HeadsGen(n) == IF Tier = "quick" /\ n = 4 THEN [1..4 -> Keys4] ELSE Heads(n)
 
 Prog(hs) == [j \in 1..Len(hs) |-> [h |-> C2("p", Rename(Pal[hs[j]], 100 + j), I(j)), b |-> True]]
 
@@ -40,8 +45,8 @@ VARIABLES m, hs, ck
 vars == <<m, hs, ck>>
 Init == m = [phase |-> "gen"] /\ hs = <<>> /\ ck = ""
 Gen == /\ m.phase = "gen"
-       /\ \E n \in Lens : \E h \in Heads(n) : \E c \in CallKeys :
-            /\ (Tier = "quick" /\ n = 3 => \E j \in 1..3 : h[j] = c \/ c = "var" \/ h[j] = "var")  \* prune: keep relevant calls
+       /\ \E n \in LensGen : \E h \in HeadsGen(n) : \E c \in CallKeys :
+            /\ (Tier = "quick" /\ n >= 3 => \E j \in 1..n : h[j] = c \/ c = "var" \/ h[j] = "var")  \* prune: keep relevant calls
             /\ hs' = h /\ ck' = c
             /\ m' = Load(Prog(h), {}, C2("p", Rename(Pal[c], 200), V("I")))
 Run1 == m.phase = "run" /\ m' = Step(m) /\ UNCHANGED <<hs, ck>>
